@@ -37,11 +37,76 @@ def fixInfixL : Nat := 3
 def fixInfixR : Nat := 4
 def fixPostfix : Nat := 5
 
-/-- `oper.Operator`; `bp` is the float32 binding power widened to binary64. -/
+/-- `oper.BP`, a Go `float32`, as its sign bit and the remaining 31 bits (biased exponent and
+fraction) read as a number.  Everything the parser does with binding powers — the comparison
+`lbp > rbp` and `BP.Prev` — is defined on this representation, so it is transparent to the kernel.
+`mag = 0x7f800000` is an infinity, anything above a NaN; `mag = 0` is a zero of either sign. -/
+structure BP where
+  neg : Bool
+  mag : Nat
+  deriving DecidableEq, Repr, Inhabited
+
+namespace BP
+
+def infMag : Nat := 0x7f800000
+
+def isNaN (b : BP) : Bool := b.mag > infMag
+
+/-- position on the number line (both zeros at 0; float32 order is the order of these keys) -/
+def key (b : BP) : Int := if b.neg then - (b.mag : Int) else b.mag
+
+/-- IEEE `<` of two float32 values: false as soon as one side is a NaN; `-0 < +0` is false -/
+def lt (a b : BP) : Bool := !a.isNaN && !b.isNaN && decide (a.key < b.key)
+
+instance : LT BP := ⟨fun a b => lt a b = true⟩
+instance (a b : BP) : Decidable (a < b) := inferInstanceAs (Decidable (lt a b = true))
+
+/-- `BP.Prev`: `math.Nextafter32(bp, -Inf)`, the largest float32 below `bp` (NaN and `-Inf` stay;
+below either zero comes the negative number of least magnitude). -/
+def pred (b : BP) : BP :=
+  if b.isNaN then b
+  else if b.mag = 0 then ⟨true, 1⟩
+  else if b.neg then (if b.mag = infMag then b else ⟨true, b.mag + 1⟩)
+  else ⟨false, b.mag - 1⟩
+
+/-- the float32 value of a natural number below 2^24 (exact) -/
+def ofNat (n : Nat) : BP :=
+  if n = 0 then ⟨false, 0⟩
+  else
+    let e := Nat.log2 n
+    ⟨false, (127 + e) * 2 ^ 23 + (n - 2 ^ e) * 2 ^ (23 - e)⟩
+
+instance (n : Nat) : OfNat BP n := ⟨ofNat n⟩
+
+/-- a float32 value that travels widened to binary64 (as the line protocol and the regenerated
+tables carry it): the float32 it came from; `none` when the double is not a float32 value. -/
+def ofF64Bits (w : UInt64) : Option BP :=
+  let w := w.toNat
+  let neg := w / 2 ^ 63 == 1
+  let e := (w / 2 ^ 52) % 2 ^ 11
+  let m := w % 2 ^ 52
+  if e == 0x7ff then
+    -- Inf / NaN (a NaN keeps being a NaN: the payload is not observable in the parser)
+    some ⟨neg, if m == 0 then infMag else infMag + 1⟩
+  else if e == 0 then
+    if m == 0 then some ⟨neg, 0⟩ else none     -- binary64 subnormals are not float32 values
+  else if e ≥ 897 && e ≤ 1150 then
+    -- normal float32: exponent 1 … 254, low 29 fraction bits must be zero
+    if m % 2 ^ 29 == 0 then some ⟨neg, (e - 896) * 2 ^ 23 + m / 2 ^ 29⟩ else none
+  else if e ≥ 874 && e ≤ 896 then
+    -- subnormal float32: value = (2^52 + m) * 2^(e-1075) = k * 2^(-149)
+    let sh := 1075 - 149 - e + 0   -- = 926 - e, between 30 and 52
+    let full := 2 ^ 52 + m
+    if full % 2 ^ sh == 0 then some ⟨neg, full / 2 ^ sh⟩ else none
+  else none
+
+end BP
+
+/-- `oper.Operator`; `bp` is the float32 binding power. -/
 structure Operator where
   kind : String
-  bp : Float
+  bp : BP
   fixity : Nat
-  deriving Inhabited
+  deriving DecidableEq, Repr, Inhabited
 
 end Yae
